@@ -673,8 +673,9 @@ def run(ctx):
     ctx.run("C10.compose.laws", laws, chunk=300,
             rule="associativity, identity, inverse, anti-homomorphism of inverse on all triples of equal length <= %d + seeded triples 4-7"
                  % (3 if quick else 4))
-    ctx.run("C10.inverse", unary, chunk=1500, rule=f"all permutations <= {nmax}")
-    ctx.run("C10.call", unary, chunk=1500, rule=f"all permutations <= {nmax}, every argument 0..n-1")
+    long_unary = [D.random_perm(rng, n) for n in range(9, 41) for _ in range(3 if quick else 20)]
+    ctx.run("C10.inverse", unary + long_unary, chunk=1500, rule=f"all permutations <= {nmax} + seeded ones of every length 9-40")
+    ctx.run("C10.call", unary + long_unary, chunk=1500, rule=f"all permutations <= {nmax} + seeded ones of every length 9-40, every argument 0..n-1")
     app = []
     for n in range(0, 5):
         app += [(p, q) for p in by_len[n] for q in by_len[n]]
